@@ -443,6 +443,7 @@ func runC17(c *runCtx) {
 		}
 	}
 	cliFixSequence(c, g)
+	lintBatches(c, g)
 }
 
 // buildGosqlx builds the CLI from /repo's working tree (shared with C19)
@@ -630,6 +631,87 @@ func checkExactness(res *Result, text string) {
 		lead := l[:len(l)-len(strings.TrimLeft(l, " \t"))]
 		if strings.Contains(lead, " ") && strings.Contains(lead, "\t") && !got[i+1] {
 			res.fail("check-inexact:L002", fmt.Sprintf("mixed-indentation check misses line %d", i+1), map[string]any{"text": text}, nil)
+		}
+	}
+}
+
+// lintBatches: one LintFiles / LintDirectory call over several files gives, for each file, the violations that linting
+// that file alone gives (rule, place, message) — read after the whole call has returned, as a caller does
+func lintBatches(c *runCtx, g *textGen) {
+	res := c.res
+	dir, err := os.MkdirTemp("", "vx-c17-batch-")
+	if err != nil {
+		res.Notes = append(res.Notes, "lint batches skipped: "+err.Error())
+		return
+	}
+	defer os.RemoveAll(dir)
+	var rules []linter.Rule
+	for _, fx := range c17Fixers() {
+		rules = append(rules, fx.rule)
+	}
+	l := linter.New(rules...)
+	key := func(vs []linter.Violation) string {
+		var b strings.Builder
+		for _, v := range vs {
+			b.WriteString(fmt.Sprintf("%s|%d:%d|%s|%s\n", v.Rule, v.Location.Line, v.Location.Column, v.Message, v.Line))
+		}
+		return b.String()
+	}
+	featNames := hostileFeatureNames()
+	for round := 0; round < c.n(60, 1200); round++ {
+		k := 2 + g.r.Intn(6)
+		var names, texts []string
+		sub := filepath.Join(dir, fmt.Sprintf("r%d", round))
+		_ = os.MkdirAll(sub, 0o755)
+		for i := 0; i < k; i++ {
+			var text string
+			switch g.r.Intn(5) {
+			case 0:
+				text = "SELECT a FROM t\n" // clean
+			case 1:
+				text = "select a  \nfrom t \t\n\n\n\n\tselect b   \n  \tfrom u\n" // many violations
+			case 2:
+				text = "SELECT a FROM t   \n" // exactly one
+			case 3:
+				text = g.hostile(featNames[g.r.Intn(len(featNames))])
+			default:
+				text = g.tame()
+			}
+			name := filepath.Join(sub, fmt.Sprintf("f%02d.sql", i))
+			if os.WriteFile(name, []byte(text), 0o644) != nil {
+				return
+			}
+			names, texts = append(names, name), append(texts, text)
+		}
+		batch := l.LintFiles(names)
+		dirRes := l.LintDirectory(sub, "*.sql")
+		res.count("batch|"+strings.Join(texts, "\x00"), true)
+		wit := map[string]any{"files": len(names), "texts": texts}
+		if len(batch.Files) != k {
+			res.fail("lint-batch:file-count", "LintFiles returns another number of file results than files given", wit, map[string]any{"got": len(batch.Files)})
+			continue
+		}
+		total := 0
+		byName := map[string]string{}
+		for _, fr := range dirRes.Files {
+			byName[fr.Filename] = key(fr.Violations)
+		}
+		for i, fr := range batch.Files {
+			alone := key(l.LintFile(names[i]).Violations)
+			str := key(l.LintString(texts[i], names[i]).Violations)
+			total += len(fr.Violations)
+			if fr.Filename != names[i] || key(fr.Violations) != alone || alone != str {
+				res.fail("lint-batch:differs-from-single-file", "the violations LintFiles reports for a file are not those of linting that file alone", wit,
+					map[string]any{"file_index": i, "batch": key(fr.Violations), "alone": alone})
+				break
+			}
+			if d, ok := byName[names[i]]; !ok || d != alone {
+				res.fail("lint-batch:directory-differs", "the violations LintDirectory reports for a file are not those of linting that file alone", wit, map[string]any{"file_index": i, "directory": d, "alone": alone})
+				break
+			}
+		}
+		if batch.TotalViolations != total || batch.TotalFiles != k {
+			res.fail("lint-batch:totals", "the totals of a LintFiles result do not equal its file results", wit, map[string]any{"total_violations": batch.TotalViolations, "sum": total, "total_files": batch.TotalFiles})
 		}
 	}
 }
